@@ -8,9 +8,10 @@ import (
 	"time"
 )
 
-// identify finds the origin execution a response came from. The body prefix and the
-// Content-Type both carry the execution id.
-func (g *rig) identify(q *rq) (x *exec, mixed string) {
+// identify finds the origin execution(s) a response came from: the Content-Type carries the id
+// of the execution whose item (status, headers, type) is served, the body prefix the id of the
+// execution whose body is served (bodies shorter than the id are matched by equality).
+func (g *rig) identify(q *rq) (item, body *exec) {
 	idOf := func(s string) int {
 		n, err := strconv.Atoi(s)
 		if err != nil {
@@ -19,25 +20,29 @@ func (g *rig) identify(q *rq) (x *exec, mixed string) {
 		return n
 	}
 	ib, ic := -1, -1
-	if b := q.Resp.Body; len(b) >= idLen && b[0] == 'E' && b[idLen-1] == ';' {
+	b := q.Resp.Body
+	if len(b) >= idLen && b[0] == 'E' && b[idLen-1] == ';' {
 		ib = idOf(string(b[1 : idLen-1]))
 	}
 	if ct := q.Resp.Get("Content-Type"); strings.HasPrefix(ct, "application/x-e") {
 		ic = idOf(strings.TrimPrefix(ct, "application/x-e"))
 	}
-	id := ib
-	if id < 0 {
-		id = ic
-	}
-	if ib >= 0 && ic >= 0 && ib != ic {
-		mixed = fmt.Sprintf("body of execution %d, Content-Type of execution %d", ib, ic)
-	}
 	g.mu.Lock()
 	defer g.mu.Unlock()
-	if id < 1 || id > len(g.execs) {
-		return nil, mixed
+	if ic >= 1 && ic <= len(g.execs) {
+		item = g.execs[ic-1]
 	}
-	return g.execs[id-1], mixed
+	if ib >= 1 && ib <= len(g.execs) {
+		body = g.execs[ib-1]
+	}
+	if body == nil && item != nil && len(b) > 0 && len(b) < idLen && !bytes.Equal(b, item.Body) {
+		for _, y := range g.execs {
+			if y.Key == item.Key && y.Method == item.Method && bytes.Equal(y.Body, b) {
+				body = y
+			}
+		}
+	}
+	return item, body
 }
 
 // judge applies the per-response monitors to a completed request. Returns true if the
@@ -51,6 +56,8 @@ func (g *rig) judge(q *rq) bool {
 	sfx := ""
 	if g.overlapped(q) {
 		sfx = "|concurrent-requests"
+	} else if g.concurrent {
+		sfx = "|after-concurrent-requests"
 	}
 	ex := func(m map[string]any) map[string]any {
 		if m == nil {
@@ -82,29 +89,30 @@ func (g *rig) judge(q *rq) bool {
 	if !g.cf.methodOK(q.Method) {
 		g.viol("hit|unconfigured-method"+sfx, "a request whose method is not in Methods was answered from the cache", ex(nil))
 	}
-	x, mixed := g.identify(q)
-	if mixed != "" {
-		// which situation: the entry was re-stored with an empty body (a conforming Storage ignores
-		// empty values, so the older body stays under <key>_body), or something else
+	x, bx := g.identify(q)
+	if x != nil && bx != nil && x != bx {
+		// item of one execution, body of another. Which situation: the entry was re-stored with an
+		// empty body (a conforming Storage ignores empty values, so the older body stays under
+		// <key>_body), or item and body come from different stores of the entry
 		class := "item-and-body-of-different-stores"
-		if x != nil {
-			g.mu.Lock()
-			for _, y := range g.execs {
-				if y.ID > x.ID && y.Key == x.Key && y.Method == x.Method && len(y.Body) == 0 && y.Ctype == q.Resp.Get("Content-Type") {
-					class = "entry-restored-with-empty-body"
-				}
-			}
-			g.mu.Unlock()
+		if len(x.Body) == 0 && bx.ID < x.ID && bx.Key == x.Key && bx.Method == x.Method {
+			class = "entry-restored-with-empty-body"
 		}
-		g.viol("transparency|mixed-executions|"+class+sfx, "a hit combines parts of two origin responses: "+mixed, ex(nil))
+		if class == "entry-restored-with-empty-body" {
+			sfx = "" // a sequential defect, the same whether or not other requests are in flight
+		}
+		g.viol("transparency|mixed-executions|"+class+sfx, fmt.Sprintf("a hit combines parts of two origin responses: body of execution %d, item (status, Content-Type) of execution %d", bx.ID, x.ID), ex(nil))
 		return true
+	}
+	if x == nil {
+		x = bx
 	}
 	if x == nil {
 		g.viol("transparency|unknown-execution"+sfx, "a hit does not identify any recorded origin execution",
 			ex(map[string]any{"body_prefix": string(q.Resp.Body[:min(len(q.Resp.Body), 16)]), "ctype": q.Resp.Get("Content-Type")}))
 		return true
 	}
-	ox := ex(map[string]any{"origin_execution": fmt.Sprintf("%s by %s", x.IDs, x.Rq.String())})
+	ox := ex(map[string]any{"origin_execution": fmt.Sprintf("%s by %s", x.IDs, x.Rq.spec())})
 	// transparency
 	if x.Key != q.Key {
 		g.viol("transparency|other-key"+sfx, "a hit serves the origin response of a different key", ox)
@@ -115,7 +123,11 @@ func (g *rig) judge(q *rq) bool {
 		g.viol("transparency|status"+sfx, fmt.Sprintf("hit status %d, origin produced %d", q.Resp.Status, x.Status), ox)
 	}
 	if !bytes.Equal(q.Resp.Body, x.Body) {
-		g.viol("transparency|body"+sfx, fmt.Sprintf("hit body (%d B) differs from the origin body (%d B)", len(q.Resp.Body), len(x.Body)), ox)
+		sig := "transparency|body"
+		if len(q.Resp.Body) == 0 {
+			sig += "|hit-without-body" // the item is there, the separately stored body is not
+		}
+		g.viol(sig+sfx, fmt.Sprintf("hit body (%d B) differs from the origin body (%d B)", len(q.Resp.Body), len(x.Body)), ox)
 	}
 	if ct := q.Resp.Get("Content-Type"); ct != x.Ctype {
 		g.viol("transparency|content-type"+sfx, fmt.Sprintf("hit Content-Type %q, origin %q", ct, x.Ctype), ox)
@@ -146,24 +158,27 @@ func (g *rig) judge(q *rq) bool {
 	if x.Rq.NextTrue {
 		g.e.Stat("hit-of-next-skipped-response", 1) // documented as "without cache creation"; not in the statement, counted only
 	}
-	// freshness: invalidation (only when the order is unambiguous: execution finished before
-	// the invalidating request started, which finished before this request started)
+	// freshness: invalidation (only when the order is unambiguous: the request that produced
+	// and stored the response had completed before the invalidating request started, and that one
+	// had completed before this request started)
 	g.mu.Lock()
 	var inv *rq
 	for _, v := range g.invMu[q.mkey()] {
-		if v != q && x.Rq != v && x.DoneTk < v.S && v.E != 0 && v.E < q.S {
+		if v != q && x.Rq != v && x.Rq.E != 0 && x.Rq.E < v.S && v.E != 0 && v.E < q.S {
 			inv = v
 		}
 	}
+	storedBy, storedAt := x.Rq.E, x.Rq.T1
 	g.mu.Unlock()
 	if inv != nil {
-		ox["invalidated_by"] = inv.String()
+		ox["invalidated_by"] = inv.spec()
 		g.viol("stale-hit|after-invalidation"+sfx, "a hit serves a response that was cached before CacheInvalidator returned true for this method+key", ox)
 	}
 	// freshness: expiry, unambiguous instants only (second-resolution clock of the middleware):
 	// more than Expiration + 1 s after the entry was stored
-	if !g.realtime {
-		age := q.T0 - x.Done
+	// (stored-at = completion of the request that stored it, the latest the store can have happened)
+	if !g.realtime && storedBy != 0 && storedBy < q.S {
+		age := q.T0 - storedAt
 		lim := time.Duration(x.ExpSec+1) * time.Second
 		if age > lim {
 			ox["age"] = age.String()
@@ -201,7 +216,10 @@ func (g *rig) probeBound(keys []string) (int, int, bool) {
 
 // checkVstoreBound reports the largest "_body" sum seen after any storage operation.
 func (g *rig) checkVstoreBound() {
-	if g.vs != nil && g.cf.MaxBytes > 0 && g.boundMax > g.cf.MaxBytes {
-		g.viol("bound|maxbytes-exceeded|vstore", fmt.Sprintf("storage held %d B of bodies after %s, MaxBytes=%d", g.boundMax, g.boundOp, g.cf.MaxBytes), nil)
+	g.mu.Lock()
+	bm, bo := g.boundMax, g.boundOp
+	g.mu.Unlock()
+	if g.vs != nil && g.cf.MaxBytes > 0 && bm > g.cf.MaxBytes {
+		g.viol("bound|maxbytes-exceeded|vstore", fmt.Sprintf("storage held %d B of bodies after %s, MaxBytes=%d", bm, bo, g.cf.MaxBytes), nil)
 	}
 }
